@@ -97,9 +97,18 @@ def main():
         runs = sum(int(l.split(' in ')[1].split(' run')[0]) for l in viol
                    if ' in ' in l)
         results[sid] = (kind, verdict)
-        print('%-7s %-62s %-11s exit=%d %4.0fs  classes=%d runs=%d' % (
+        # exceptions of the harness itself inside single runs (tolerated while
+        # rare, but each one is a place where the harness assumed something
+        # about the code under test)
+        herr = sum(1 for l in text.splitlines()
+                   if l.startswith(('WARNING', 'HARNESS-ERROR')))
+        print('%-7s %-62s %-11s exit=%d %4.0fs  classes=%d runs=%d%s' % (
             kind, sid, verdict, proc.returncode, time.time() - ts, len(viol),
-            runs), flush=True)
+            runs, '  harness-exceptions=%d' % herr if herr else ''),
+              flush=True)
+        if herr and ok:
+          print('\n'.join(l for l in text.splitlines() if l.startswith(
+              ('WARNING', 'HARNESS-ERROR', '    ')))[-900:])
         if not ok:
           print(text[-1200:])
         shutil.rmtree(root, ignore_errors=True)
